@@ -53,7 +53,7 @@ fn gen_observable(rng: &mut Rng) -> Vec<String> {
     // Observable-everything tail.
     for (name, k) in vars.iter() {
         match k {
-            Kind::Func1 | Kind::Func0 => stmts.push(format!("emit(repr({name}), str({name}), type({name}))\nprint({name})")),
+            Kind::Func1 | Kind::PureFunc1 | Kind::Func0 => stmts.push(format!("emit(repr({name}), str({name}), type({name}))\nprint({name})")),
             Kind::Str => stmts.push(format!("emit(hash({name}), {name}.split(\"a\"), dir({name})[:4])")),
             Kind::Dict => stmts.push(format!("emit(list({name}.keys()), list({name}.items()), [k for k in {name}])\nprint({name})")),
             Kind::Set => stmts.push(format!("emit([x for x in {name}], len({name}))")),
